@@ -648,6 +648,13 @@ func runC02(c *Ctx) {
 	ruleVersionArgs(c, p, "C02.version")
 	ruleBitFlags(c, p, messagePairs(p), "C02.flags")
 	ruleSettingsEnd(c, p, "C02.settings-end")
+	ruleKeyWidth(c, p, "C02.keywidth")
+	// the column encoders differ between the default and the pure-Go build: both are what the client writes
+	for _, cf := range c.Configs() {
+		if pc := c.Prog(cf); pc != nil {
+			ruleSwapRegion(c, pc, "C02.swap")
+		}
+	}
 	ruleTableLookups(c, p, "C02.tables")
 	rb := p.Method(core.PkgCompress, "Reader", "readBlock")
 	wr := p.Method(core.PkgCompress, "Writer", "Compress")
